@@ -23,6 +23,7 @@ def run(ctx):
     ctx.exhaustive_note = '60x24 tables complete; the inverse search is evaluated on 258 sampled (instant, range) pairs'
     from rules import shared
     ctx.include('effect_inventory', shared.effect_inventory)   # no new process-wide mutable state (MIR statics inventory)
+    ctx.include('jd_tables', shared.jd_tables)           # civil date <-> day number and Julian date -> clock (term instants become days / instants through them)
     ctx.include('month_records', shared.month_records)   # leap table, solstice anchor, month memo, memo cells (shared, cached per source hash)
     I = ctx.interp(fuel=60000000)
     t = T(I)
@@ -84,6 +85,28 @@ def run(ctx):
     table(ctx, 'PETE-SCENARIO', 'SixtyCycleHour::from_solar_time:day-roll', dom, inst, inst_orc,
           'instant view: day pillar is the next day\'s from 23:00, hour pillar by Five Rats, slot index, and the eight characters are year/month/day/hour in order',
           lambda x: 'day+%d %02d:29:59' % x, fn_site(p, 'SixtyCycleHour::from_solar_time'))
+
+    # ---- composition at the exact second a Jie (and Lichun) starts: a term starts at its instant ROUNDED to the second, for all four characters alike
+    sec_f = dict((i, (i * 3607 + 1234) % 86000 + 100 + (0.4 if i % 4 in (0, 3) else 0.6)) for i in range(24))
+    terms_f = typical_terms(range(Y - 1, Y + 3), sec=sec_f)
+
+    def at_jie(x):
+        n, s_ = x
+        cm = CalModel(I, terms_f, months)
+        st = cm.solar_time_n(n, s_)
+        return t.name(t.m(I.call('SixtyCycleHour::from_solar_time', [st]), 'get_eight_char'))
+
+    def at_jie_orc(x):
+        n, s_ = x
+        pidx = (n + 49) % 60
+        h = s_ // 3600
+        yp, mp = oracle_time(terms_f, Y, n, s_)
+        return u'%s %s %s %s' % (yp, mp, G.sixty((pidx + 1) % 60 if h == 23 else pidx), hour_pillar(pidx, h))
+    jdom = sorted(set((tn, int(ts + 0.5) + ds) for (ty, ti), (tn, ts) in terms_f.items() if ti % 2 == 1 and CAL.from_jdn(tn)[0] == Y and any(r['first'] <= tn < r['first'] + r['count'] for r in months)
+                      for ds in (-1, 0, 1) if 0 <= int(ts + 0.5) + ds < 86400))
+    table(ctx, 'PETE-SCENARIO', 'eight-characters:at-the-Jie-second', jdom, at_jie, at_jie_orc,
+          'the eight characters one second before, at and one second after the (rounded) start of every Jie of a year are the four pillars of that instant (year and month change together at Lichun)',
+          lambda x: '%d-%02d-%02d +%ds' % (CAL.from_jdn(x[0]) + (x[1],)), fn_site(p, 'SixtyCycleHour::from_solar_time'))
 
     # ---- wiring through the providers (LunarHour::get_eight_char uses the registered provider)
     def via_provider(x):
